@@ -285,6 +285,7 @@ func (rs *rowStore) processInserts(offsetsBySource common.OffsetsBySource, stop 
 	for {
 		select {
 		case insert := <-rs.inserts:
+			verifEvent("ms.apply", rs.t.Name, insert.key != nil, insert.source)
 			rs.mx.Lock()
 			ms.offsetsBySource[insert.source] = insert.offset
 			ms.offsetChanged = true
@@ -335,6 +336,7 @@ func (rs *rowStore) iterate(ctx context.Context, outFields core.Fields, includeM
 		ms = rs.memStore.copy()
 	}
 	rs.mx.RUnlock()
+	verifEvent("scan.start", rs.t.Name, includeMemStore)
 	rs.mx.Lock()
 	rs.iterationsInProgress[fs.filename]++
 	rs.mx.Unlock()
@@ -390,7 +392,9 @@ func (rs *rowStore) doProcessFlush(ms *memstore, allowSort, allowFailure bool) (
 	}
 	defer out.Close()
 
+	verifEvent("flush.begin", rs.t.Name, shouldSort, disallowRaw)
 	highWaterMark, rowCount, flushErr := fs.flush(out, rs.fields, nil, ms.offsetsBySource, ms, shouldSort, disallowRaw)
+	verifEvent("flush.tmpwritten", rs.t.Name)
 	if flushErr != nil {
 		shasum, err := calcShaSum(fs.filename)
 		if err != nil {
@@ -410,6 +414,7 @@ func (rs *rowStore) doProcessFlush(ms *memstore, allowSort, allowFailure bool) (
 	if syncErr := out.Sync(); syncErr != nil {
 		rs.t.db.Panic(syncErr)
 	}
+	verifEvent("flush.synced", rs.t.Name)
 	fi, err := out.Stat()
 	if err != nil {
 		fs.t.log.Errorf("Unable to stat output file to get size: %v", err)
@@ -425,6 +430,7 @@ func (rs *rowStore) doProcessFlush(ms *memstore, allowSort, allowFailure bool) (
 	if renameErr := os.Rename(out.Name(), newFileStoreName); renameErr != nil {
 		rs.t.db.Panic(renameErr)
 	}
+	verifEvent("flush.renamed", rs.t.Name)
 	defer func() {
 		shasum, err := calcShaSum(newFileStoreName)
 		if err != nil {
@@ -440,6 +446,7 @@ func (rs *rowStore) doProcessFlush(ms *memstore, allowSort, allowFailure bool) (
 	rs.fileStore = fs
 	rs.memStore = ms
 	rs.mx.Unlock()
+	verifEvent("flush.swapped", rs.t.Name)
 
 	flushDuration := time.Now().Sub(start)
 	if fi != nil {
@@ -675,6 +682,8 @@ func (rs *rowStore) writeOffsets(offsetsBySource common.OffsetsBySource) error {
 		return errors.New("Unable to close offset file: %v", err)
 	}
 
+	verifEvent("offset.tmpwritten", rs.t.Name)
+	defer verifEvent("offset.renamed", rs.t.Name)
 	return os.Rename(out.Name(), filepath.Join(rs.opts.dir, offsetFilename))
 }
 
@@ -714,6 +723,7 @@ func (rs *rowStore) removeOldFiles(stop <-chan interface{}) {
 					// Okay to delete now
 					name := filepath.Join(rs.opts.dir, filename)
 					rs.t.log.Debugf("Removing old file %v", name)
+					verifEvent("oldfile.remove", rs.t.Name)
 					err := os.Remove(name)
 					if err != nil {
 						rs.t.log.Errorf("Unable to delete old file store %v, still consuming disk space unnecessarily: %v", name, err)
